@@ -229,14 +229,25 @@ def grid_shape(s):
     return both(Q.seq_len(rows_of(s.term)) == s.height, forall(0, s.height, lambda r: row_len(s.term, r) == s.width))
 
 
-def GI(s):
-    """Grid invariant: positive size; `term` is height rows of width cells; scrolling region and cursor inside
-    the grid; the view offset inside the scroll-back; a tab-stop byte for every column."""
+def GI_parts(s):
+    """The conjuncts of the grid invariant by name (a helper that is called while the invariant is being re-established
+    -- resize, csi_set_scroll -- is verified under, and its callers owe, only the parts it needs: `modelled(needs=...)`)."""
     x, y = s.term_cursor
-    return both(s.width >= 1, s.height >= 1, 0 <= s.scrollregion_start, s.scrollregion_start <= s.scrollregion_end,
-                s.scrollregion_end <= s.height - 1, 0 <= x, x < s.width, 0 <= y, y < s.height, s.scrolling_up >= 0,
-                s.scrolling_up <= Q.seq_len(s.scrollback_buffer.seq), Q.seq_len(rows_of(s.tabstops)) * 8 >= s.width,
-                grid_shape(s))
+    return dict(
+        size=both(s.width >= 1, s.height >= 1),
+        region=both(0 <= s.scrollregion_start, s.scrollregion_start <= s.scrollregion_end, s.scrollregion_end <= s.height - 1),
+        cursor=both(0 <= x, x < s.width, 0 <= y, y < s.height),
+        view=both(s.scrolling_up >= 0, s.scrolling_up <= Q.seq_len(s.scrollback_buffer.seq)),
+        tabs=Q.seq_len(rows_of(s.tabstops)) * 8 >= s.width,
+        shape=grid_shape(s))
+
+
+def GI(s, but=(), only=None):
+    """Grid invariant: positive size; `term` is height rows of width cells; scrolling region and cursor inside
+    the grid; the view offset inside the scroll-back; a tab-stop byte for every column.
+    (`but` / `only`: the invariant without the named parts / just the named parts.)"""
+    parts = GI_parts(s)
+    return both(*[f for k, f in parts.items() if k not in but and (only is None or k in only)])
 
 
 KIND = dict(term="rows", scrollback_buffer="deque", tabstops="ints", charset="obj", modes="obj")
@@ -294,11 +305,15 @@ def modelled(cls):
     """Class decorator (below @contract): the contract is `model(old, a) -> s'` over the fields in `modifies`.
     Body side: each modified field equals the model value, every other field is unchanged, the invariant holds,
     plus the statement clauses of `clauses(old, s, a, result)`.  Callee side: the fields are *set* to the model
-    values (no quantified facts are assumed; the invariant is re-derivable from the values)."""
+    values (no quantified facts are assumed; the invariant is re-derivable from the values).
+    A helper that other methods call while the invariant is broken declares `needs` (the parts of GI it is verified
+    under and that its callers owe at the call) and `repairs` (the parts it re-establishes whatever they were): it then
+    proves "the rest of the invariant at entry gives the whole invariant at exit"."""
     model, clauses, mods = cls.model, cls.__dict__.get("clauses"), cls.modifies
+    needs, repairs = cls.__dict__.get("needs"), cls.__dict__.get("repairs", ())
 
     def ensures(old, s, a, result):
-        yield "keeps-the-grid-invariant", GI(s)
+        yield "keeps-the-grid-invariant", GI(s) if needs is None else implies(GI(old, but=repairs), GI(s))
         m = model(old, a)
         for k in mods:
             yield f"{k}-is-the-model-value", same_value(k, s.fields[k], getattr(m, k))
@@ -312,7 +327,7 @@ def modelled(cls):
             s.fields[k] = materialize(k, old.fields[k], getattr(m, k))
 
     cls.ensures, cls.effects, cls.ensures_callee = ensures, effects, (lambda old, s, a, result: ())
-    cls.invariant = staticmethod(GI)
+    cls.invariant = staticmethod(GI if needs is None else (lambda s: GI(s, only=needs)))
     cls.self_shape = TERM
     cls.replayable = False
     cls.independent_posts = True
@@ -597,6 +612,10 @@ class constrain_coords:
 class set_term_cursor:
     params = dict(x=Opt(Int), y=Opt(Int))
     modifies = CURSOR_FIELDS
+    # resize calls it with the cursor still where it was on the old grid and the tab-stop table not yet extended:
+    # it needs a positive size, valid margins (constrain_coords in origin mode) and a view offset >= 0 (the displayed
+    # cursor is inside the canvas), and it puts the cursor inside
+    needs, repairs = ("size", "region", "view"), ("cursor",)
 
     def model(old, a):
         return M_set_cursor(old, old.term_cursor[0] if is_none(a.x) else val(a.x), old.term_cursor[1] if is_none(a.y) else val(a.y))
@@ -655,6 +674,8 @@ class get_utf8_len:
 class reset_scroll:
     params = dict()
     modifies = ("scrollregion_start", "scrollregion_end")
+    # resize calls it right after the size changed (margins, cursor, tab-stop table still those of the old size)
+    needs, repairs = ("size",), ("region",)
 
     def model(old, a):
         return upd(old, scrollregion_start=0, scrollregion_end=old.height - 1)
@@ -1385,3 +1406,71 @@ class resize:
         # failed before fix: commit 74c4a7d: TermCanvas(4, 5), cursor (1, 1), resize(6, 5) -> cursor (1, 4): the loops `for y in range(self.height)`
         # that adjust the width overwrite the saved cursor row `y`, so any change of width sends the cursor to the last row
         yield "cursor-stays-on-its-cell-where-it-still-exists", cursor_is(s, (imin(old.term_cursor[0], w - 1), imin(old.term_cursor[1], h - 1)))
+
+
+# ---- resize, second contract: the shape half of the class invariant and the tab-stop table only.
+# The contract above proves resize equal to the reference model cell by cell (rows by value: minutes of solver time,
+# thorough tier).  This one abstracts the cell contents away -- the loop invariants speak of the number of rows and
+# of their lengths, nothing else -- and proves, in seconds (quick tier), the part of the statement "for any
+# interleaving of terminal resizes the terminal never raises and keeps a grid of exactly height rows by width cells
+# with the cursor and the scrolling region inside it": every helper resize calls gets the class invariant it was
+# verified under (call-inv@...), the invariant holds at exit FOR THE NEW SIZE -- in particular the tab-stop table has
+# a byte for every column of the new width, which is what keeps HT / HTS / TBC in the new columns from indexing past
+# its end (is_tabstop / set_tabstop / tab are verified under GI) -- and the table is the old one extended by default
+# stops (VT100: a stop every 8 columns), never truncated or rewritten.
+
+
+def _rows_have(t, lo, hi, w):
+    return forall(lo, hi, lambda r: row_len(t, r) == w)
+
+
+def _shape_w_inv(v):
+    """Width loops: still `height` rows; the rows below i_ have the new width, the others the old one."""
+    t, h = v.self.term, v.old.self.height
+    return both(Q.seq_len(rows_of(t)) == h, _rows_have(t, 0, v.i_, v.width), _rows_have(t, v.i_, h, v.old.self.width))
+
+
+def _shape_grow_inv(v):
+    """Height grows: one more row of the new width per iteration (taken back from the scroll-back and cut / padded, or blank)."""
+    t, o = v.self.term, v.old.self
+    return both(Q.seq_len(rows_of(t)) == o.height + v.i_, _rows_have(t, 0, o.height + v.i_, v.width))
+
+
+def _shape_shrink_inv(v):
+    t, o = v.self.term, v.old.self
+    return both(Q.seq_len(rows_of(t)) == o.height - v.i_, _rows_have(t, 0, o.height - v.i_, v.width))
+
+
+@contract(VT + "TermCanvas.resize", property="C15", alias="tabstops")
+class resize_tabstops:
+    self_shape = TERM
+    params = dict(width=Int, height=Int)
+    modifies = RESIZE_FIELDS
+    inline = HELPERS
+    invariant = staticmethod(GI)
+    replayable = False
+    independent_posts = True
+    loops = {
+        0: Loop(modifies=("self.term",), invariant=_shape_w_inv),
+        1: Loop(modifies=("self.term",), invariant=_shape_w_inv),
+        2: Loop(modifies=("self.term", "self.scrollback_buffer", "self.scrollregion_end"), invariant=_shape_grow_inv),
+        3: Loop(modifies=("self.term", "self.scrollback_buffer"), invariant=_shape_shrink_inv),
+    }
+
+    def requires(s, a):
+        return both(a.width >= 1, a.height >= 1)
+
+    def ensures(old, s, a, result):
+        w, h = a.width, a.height
+        tabs, tabs0 = rows_of(s.tabstops), rows_of(old.tabstops)
+        n, n0 = Q.seq_len(tabs), Q.seq_len(tabs0)
+        yield "new-size", both(s.width == w, s.height == h)
+        yield "keeps-the-grid-invariant-at-the-new-size", GI(s)
+        yield "grid-is-height-rows-of-width-cells", both(Q.seq_len(rows_of(s.term)) == h, _rows_have(s.term, 0, h, w))
+        yield "a-tab-stop-byte-for-every-column-of-the-new-width", n * 8 >= w
+        yield "tab-stop-table-is-extended-never-cut", n == imax(n0, tab_bytes(w))
+        yield "old-tab-stops-persist", forall(0, n0, lambda j: Q.seq_get(tabs, j) == Q.seq_get(tabs0, j))
+        yield "new-columns-get-the-default-stop-every-8-columns", forall(n0, n, lambda j: Q.seq_get(tabs, j) == 1)
+        yield "scrolling-region-is-the-whole-screen", both(s.scrollregion_start == 0, s.scrollregion_end == h - 1)
+        yield "cursor-inside-the-new-grid", in_grid(s, *s.term_cursor)
+        yield "frame", frame(old, s, *RESIZE_FIELDS)
